@@ -504,5 +504,8 @@ ADDENDA = {
     'C18': 'After every Rect call with finite bounds, split_x / split_y must give two Rects with min <= max that share one cut inside the bounds and keep the outer bounds.',
     'C20': 'placement.* ops: the same object as both operands against a separate equal copy (MultiPolygon and Polygon entry points, 4 operations), and unary_union over one listing of members given as a slice, as references with rising / falling addresses, separately boxed, and with one member listed twice (same object / equal copy), mixed windings: one digest for all.',
 }
+_LARGE = ' One case in 250 of the shared pair generator (C01, C02, C07), one in 50 (C12), one in 60 (C14) and one history in 25 (C17) uses operands of realistic size or with a node of high degree: star polygons of 40-180 vertices, a square with a grid of up to 49 holes (some touching at corners), zigzag line strings of 40-200 vertices, checkerboard MultiPolygons (members touching in points), fans of 8-40 segments / 4-23 triangles meeting in one point, MultiPoints of 50-300 points; partners: the same object, a slightly moved copy, a long line across, a rectangle over a quarter, one of its coordinates, a fan at one of its coordinates, another large shape moved onto it. Operands up to 700 segments are judged by the same exact oracle.'
+for _p in ['C01', 'C02', 'C07', 'C12', 'C14', 'C17']:
+    ADDENDA[_p] = ADDENDA.get(_p, '') + _LARGE
 for _p, _t in ADDENDA.items():
     PROPS[_p]['rule'] = PROPS[_p]['rule'] + ' ' + _t
